@@ -352,7 +352,8 @@ SINKS: list[Sink] = [
 SINK: dict[str, Sink] = {s.name: s for s in SINKS}
 # sinks through which an unfiltered value must pass unchanged (clause 2)
 PASS_SINKS = [s.name for s in SINKS if s.name not in ("for_split", "index")]
-CORE3 = ["out", "assign", "capture"]  # sinks for chains of 3 (quick)
+CORE3 = ["out", "capture"]  # sinks for chains of 3 (quick)
+HIST_SEL = {"out": None, "capture": None, "assign": [1], "for_over": None, "cycle": None, "translate_kw": None}
 STRUCT_SINKS = ["out", "assign", "capture", "for_over", "render_for", "include_with", "cycle"]
 STRUCT_SINKS2 = {"out": None, "capture": [1], "for_over": None, "render_for": None}
 
@@ -494,6 +495,11 @@ def layer_units(layer: str, tier: str) -> Iterator[tuple[str, tuple, Optional[li
                 yield (src, (), [name])
         for name in ("out", "for_over", "render_for", "assign", "capture"):
             yield ("xs", (), [name])
+    elif layer == "history":  # two / three renders of one template on one environment: safe value, then the equal plain string
+        for name in PASS_SINKS:
+            yield ("x", (), [name])
+        for ch in chains(INSTANCES, 1):
+            yield ("x", ch, HIST_SEL)
     else:
         raise AssertionError(layer)
 
@@ -504,4 +510,4 @@ def layer_specs(layer: str, tier: str) -> Iterator[dict]:
 
 
 AE_4 = AE_BRANCH + [("url_decode", ""), ("base64_decode", ""), ("append", '"a"'), ("slice", "0, 3")]
-LAYERS = ["chain2", "chain3", "chain3all", "chain4", "data2", "data3", "struct", "safe"]
+LAYERS = ["chain2", "chain3", "chain3all", "chain4", "data2", "data3", "struct", "safe", "history"]
